@@ -69,6 +69,28 @@ class TNDyn(TNOps):
                 return False
         return True
 
+    def full_rank_representation(self, psi, v0):
+        """
+        True iff, after the right-orthonormalisation every integrator starts with, each bond dimension equals
+        the Schmidt rank of the state at that cut (the representation is a regular point of the manifold).
+        """
+        import copy as _copy
+        c = _copy.deepcopy(psi.ref)
+        try:
+            c.orthonormalize(mode='right')
+        except Exception:
+            return None
+        bd = bond_dims(c, 'mps')
+        L, d = self.L, self.d
+        for cut in range(1, L):
+            s = dn.schmidt_values(v0, d ** cut)
+            r = int(np.sum(s > 1e-8))
+            if np.any((s <= 1e-8) & (s > 1e-13)):
+                return None
+            if bd[cut] != r:
+                return False
+        return True
+
     def max_local_dim(self, psi, sites):
         bd = bond_dims(psi.ref, 'mps')
         d = self.d
@@ -179,6 +201,12 @@ class TNDyn(TNOps):
         v_in = psi.dense.copy()
         v0 = v_in / np.linalg.norm(v_in)
         self.mon_budget = MON_PER_OP
+        fr = self.full_rank_representation(psi, v0)
+        if fr is not True:
+            # DESIGN 7.6b: at a rank-deficient point the fixed-rank manifold is singular; the result depends on
+            # the arbitrary completion of the null directions and the scheme is not reversible there
+            self.skip('c09_rank_deficient_representation' if fr is False else 'c09_rank_gap_unclear')
+            return 'skipped'
 
         def fn():
             r1 = ptn.integrate_local_singlesite(H.ref, psi.ref, dt, n, numiter_lanczos=numiter)
@@ -470,10 +498,9 @@ class TNDyn(TNOps):
                     self.probe('lanczos_m_gt_n')
                 if cls != 'grey':
                     self.mon_budget -= 1
-                    hz = ko.orth_horizon(A, Q, normA)
-                    if hz < min(numiter, Q.shape[1]):
-                        self.probe('lanczos_ritz_converged_guard')
-                    fails = ko.check_lanczos(A, v, numiter, out, cls, K, normA, horizon=hz)
+                    if ko.orth_horizon(A, Q, normA) < min(numiter, Q.shape[1]):
+                        self.probe('lanczos_ritz_converged_before_end')
+                    fails = ko.check_lanczos(A, v, numiter, out, cls, K, normA)
                     self.judged[('C14', 'lanczos_relations')] += 1
                     for clause, detail in fails:
                         self.viol('C14', 'lanczos_' + clause, f'n={len(v)} m={numiter} class={cls}: {detail}')
@@ -514,7 +541,7 @@ class TNDyn(TNOps):
             if prep is not None and prep[1] != 'grey':
                 A, cls, K, normA, Q = prep
                 kret = self.last_lanczos[0] if self.last_lanczos else None
-                fails = ko.check_eigh_krylov(A, v0, numiter, numeig, out, cls, K, normA, Q, kret=kret, horizon=ko.orth_horizon(A, Q, normA))
+                fails = ko.check_eigh_krylov(A, v0, numiter, numeig, out, cls, K, normA, Q, kret=kret)
                 self.judged[('C15', 'eigh_krylov')] += 1
                 for clause, detail in fails:
                     self.viol('C15', clause, f'n={len(v0)} m={numiter} class={cls}: {detail}')
